@@ -273,6 +273,57 @@ theorem accepted_runs_system {σ : Type} (applyAll : List ElemKind → σ → σ
     simp [precondSystem, bad, hany]
   simp [stepSystem, this]
 
+/-- What each repaired domain rejects in a constraint system (`add_constraints`, `add_recycled_constraints`). -/
+theorem rejected_constraint_kinds (k : ElemKind) :
+    (elemBad .bds .addConstraints k = true ↔ k = .strict ∨ k = .unsupported ∨ k = .dimIncompatible) ∧
+    (elemBad .oct .addConstraints k = true ↔ k = .strict ∨ k = .unsupported ∨ k = .dimIncompatible) ∧
+    (elemBad .box .addConstraints k = true ↔ k = .unsupported ∨ k = .dimIncompatible) ∧
+    (elemBad .grid .addConstraints k = true ↔ k = .inequality ∨ k = .dimIncompatible) ∧
+    (elemBad .polyC .addConstraints k = true ↔ k = .strict ∨ k = .dimIncompatible) ∧
+    (elemBad .polyNNC .addConstraints k = true ↔ k = .dimIncompatible) := by
+  cases k <;> decide
+
+/-- …and in a congruence system: a proper congruence everywhere but in a grid. -/
+theorem rejected_congruence_kinds (k : ElemKind) :
+    (elemBad .bds .addCongruences k = true ↔ k = .proper ∨ k = .dimIncompatible) ∧
+    (elemBad .oct .addCongruences k = true ↔ k = .proper ∨ k = .dimIncompatible) ∧
+    (elemBad .box .addCongruences k = true ↔ k = .proper ∨ k = .dimIncompatible) ∧
+    (elemBad .grid .addCongruences k = true ↔ k = .dimIncompatible) ∧
+    (elemBad .polyC .addCongruences k = true ↔ k = .proper ∨ k = .dimIncompatible) := by
+  cases k <;> decide
+
+/-- BD shapes, octagons, boxes and grids **as repaired** (validate first: bcff4db, d118ccd, 2c68c03,
+7218b6b): an unsupported / strict / proper / dimension-incompatible element at any position rejects
+the call and nothing has been applied. -/
+theorem rejected_unchanged_system_weakly_relational {σ : Type} (apply1 : ElemKind → σ → σ)
+    (d : DomKind) (hd : d = .bds ∨ d = .oct ∨ d = .box ∨ d = .grid)
+    (op : SysOp) (before after : List ElemKind) (e : ElemKind) (r : σ) (h : elemBad d op e = true) :
+    stepSystem (applyEach apply1) d op (before ++ e :: after) r = (.error .invalidArgument, r) := by
+  have _ := hd
+  exact rejected_unchanged_system (applyEach apply1) d op before after e r h
+
+/-- Historical witness: checking each element when it is met (the code as found) changes the
+receiver before it throws, as soon as an accepted element precedes the offender. -/
+theorem rejected_unchanged_system_as_written_fails :
+    ¬ (∀ (d : DomKind) (op : SysOp) (es : List ElemKind) (r : Nat),
+        (stepSystemAsWritten (fun _ n => n + 1) d op es r).1 = .error .invalidArgument →
+        (stepSystemAsWritten (fun _ n => n + 1) d op es r).2 = r) := by
+  intro h
+  have := h .bds .addConstraints [.ok, .unsupported] 0 rfl
+  revert this; decide
+
+/-- The as-written overloads are clean exactly when the offender comes first (what the products still do
+with their two components in sequence). -/
+theorem rejected_unchanged_system_as_written_partial {σ : Type} (apply1 : ElemKind → σ → σ) (d : DomKind)
+    (op : SysOp) (e : ElemKind) (after : List ElemKind) (r : σ) (h : elemBad d op e = true) :
+    stepSystemAsWritten apply1 d op (e :: after) r = (.error .invalidArgument, r) := by
+  simp [stepSystemAsWritten, h]
+
+example : precondSystem .bds .addConstraints [.ok, .ok, .unsupported] = .error .invalidArgument := rfl
+example : precondSystem .box .addConstraints [.ok, .strict, .ok] = .ok () := rfl
+example : precondSystem .grid .refine [.ok, .dimIncompatible] = .error .invalidArgument := rfl
+example : stepSystemAsWritten (fun _ n => n + 1) .oct .addCongruences [.ok, .ok, .proper] 0 = (.error .invalidArgument, 2) := rfl
+
 example : precondSystem .polyC .addCongruences [.ok, .ok, .proper] = .error .invalidArgument := rfl
 example : precondSystem .polyC .addCongruences [.proper, .ok, .ok] = .error .invalidArgument := rfl
 example : precondSystem .polyNNC .addConstraints [.ok, .strict, .ok] = .ok () := rfl
